@@ -81,3 +81,54 @@ def origins(fn: ast.FunctionDef, expr: ast.expr, _seen: frozenset = frozenset())
     if d is not None:
         return {(d, ())}
     return {(f"expr:{ast.unparse(expr)[:60]}", ())}
+
+
+def unassigned_self_attrs(P, cname: str) -> list[tuple[str, str, int]]:
+    """(attribute, reading method, line) for every `self.<attr>` that some method of the class reads but that no method of the
+    class or of its library bases ever assigns, and that is not a method, property, class attribute or an attribute of an
+    external base (threading.Thread ...).  Such a read raises AttributeError the first time it runs."""
+    mro = [c for c in P.mro(cname) if P.has_cls(c)]
+    external = [c for c in P.mro(cname) if not P.has_cls(c)]
+    assigned: set[str] = set()
+    defined: set[str] = set()
+    for c in mro:
+        ci = P.cls(c)
+        defined |= set(ci.methods) | set(ci.attrs)
+        for n in ast.walk(ci.node):
+            if isinstance(n, ast.Attribute) and isinstance(n.value, ast.Name) and n.value.id == "self" and isinstance(n.ctx, (ast.Store, ast.Del)):
+                assigned.add(n.attr)
+            if isinstance(n, (ast.AnnAssign,)) and isinstance(n.target, ast.Name):
+                defined.add(n.target.id)
+            if isinstance(n, ast.Call) and isinstance(n.func, ast.Name) and n.func.id == "setattr" and len(n.args) >= 2 and isinstance(n.args[1], ast.Constant):
+                assigned.add(n.args[1].value)
+    out = []
+    ci = P.cls(cname)
+    for m, fi in ci.methods.items():
+        for n in ast.walk(fi.node):
+            if isinstance(n, ast.Attribute) and isinstance(n.value, ast.Name) and n.value.id == "self" and isinstance(n.ctx, ast.Load):
+                a = n.attr
+                if a in assigned or a in defined:
+                    continue
+                if external and (a.startswith("__") or hasattr(__import__("threading").Thread, a) or a in ("name", "daemon", "ident")):
+                    continue
+                out.append((a, m, n.lineno))
+    return out
+
+
+def check_attrs_initialised(ctx, rule, P, classes, consequence: str) -> None:
+    """One instance per class: every `self.<attr>` it reads is assigned somewhere in the class or its library bases."""
+    from .fixtures import unassigned_fixture_fires
+
+    unassigned_fixture_fires()
+    for c in classes:
+        if not P.has_cls(c):
+            continue
+        ci = P.cls(c)
+        bad = unassigned_self_attrs(P, c)
+        ctx.check(
+            not bad,
+            rule,
+            f"{c}: every attribute it reads is assigned somewhere",
+            "; ".join(f"`self.{a}` is read in {m}() (line {ln}) but never assigned in {c} or its bases" for a, m, ln in bad[:4]) + f": AttributeError the first time that statement runs — {consequence}",
+            f"{ci.module.relpath}:{bad[0][2] if bad else ci.node.lineno}",
+        )
